@@ -54,7 +54,7 @@ def text_point(ctx, case):
     except Exception as e:
         if case.get('must_accept'):
             ctx.violation('%s:%s:text-refused-legal' % (PROP, mn), 'canonical text %r of legal halfword %s refused: %s'
-                          % (line, case.get('h'), str(e).splitlines()[-1]), 'text_point', case, expected='accepted', observed=repr(e)[:200])
+                          % (line, case.get('h'), kernel.errline(e)), 'text_point', case, expected='accepted', observed=repr(e)[:200])
         return
     h = int.from_bytes(out, 'little') if len(out) == 2 else out
     if case.get('h') is not None and h != case['h']:
